@@ -110,6 +110,42 @@ class Facts:
     def body(self, id_):
         return self.bodies[id_]
 
+    def inlined(self, b, pred, tag, depth=3):
+        """A-INLINE on demand: a copy of instance body b in which every call to a crate-local callee
+        satisfying pred(callee Body) is replaced by the callee's MIR (same machinery as the load-time
+        normalisation of unknown helpers). Used by rules that reason about ONE computation that the crate
+        may or may not have factored into a helper (e.g. the frame checksum)."""
+        import copy
+        import inline as _inl
+        key = (b.id, tag)
+        cache = self.__dict__.setdefault('_inl_cache', {})
+        if key in cache:
+            return cache[key]
+        j = copy.deepcopy(b.j)
+        by_id = {x.id: x for x in self.bodies.values()}
+        for _round in range(depth):
+            changed = False
+            for bi in range(len(j['blocks'])):
+                blk = j['blocks'][bi]
+                t = blk['term']
+                if t['k'] != 'call' or blk.get('cleanup'):
+                    continue
+                cal = t['callee']
+                n = cal.get('node')
+                if not cal.get('local') or cal.get('as_value') or n is None or n not in by_id or n == b.id:
+                    continue
+                cb = by_id[n]
+                if cb.is_closure or cb.arg_count != len(t['args']) or not pred(cb):
+                    continue
+                _inl.inline_call(j, bi, copy.deepcopy(cb.j))
+                changed = True
+            if not changed:
+                break
+        _inl.prune_unreachable(j)
+        nb = Body(j, self, poly=b.poly)
+        cache[key] = nb
+        return nb
+
     def instances(self, path_suffix=None, pred=None):
         out = []
         for b in self.bodies.values():
@@ -1087,6 +1123,59 @@ def alias_paths(b, root):
                         known[l].add(path)
                         changed = True
     return known
+
+
+def result_edges(b, r):
+    """Edges on which the Result / Option held by local r (and its whole-value copies) is known to be
+    Ok/Some ('ok') or Err/None ('err'): through `?` (Try::branch + switch) or a direct match / if let.
+    Also returns the alias maps needed to recognise reads of the success payload."""
+    known = alias_paths(b, r)
+    out = {'ok': [], 'err': [], 'payload': []}
+    for (bj, pl, adt, edges) in b.discr_switches():
+        if place_path(known, pl) == [()]:
+            for v in ('Ok', 'Some'):
+                if v in edges:
+                    out['ok'].append(edges[v])
+            for v in ('Err', 'None'):
+                if v in edges:
+                    out['err'].append(edges[v])
+    out['payload'].append((known, [(('v', 'Ok'), ('f', '0')), (('v', 'Some'), ('f', '0'))]))
+    for c2 in b.calls:
+        if c2.name.endswith('::branch') and c2.arg_local(0) in known and () in known.get(c2.arg_local(0), ()) and c2.dest_local() is not None:
+            k2 = alias_paths(b, c2.dest_local())
+            for (bj, pl, adt, edges) in b.discr_switches():
+                if place_path(k2, pl) == [()]:
+                    if 'Continue' in edges:
+                        out['ok'].append(edges['Continue'])
+                    if 'Break' in edges:
+                        out['err'].append(edges['Break'])
+            out['payload'].append((k2, [(('v', 'Continue'), ('f', '0'))]))
+    return out
+
+
+def ok_bool_edges(b, r):
+    """[(true_edge, false_edge)] of the switches that test the bool success payload of the Result held by
+    local r -- `if call()? {..}`, `let f = call()?; if f`, `match call() { Ok(f) => f, .. }; if f` alike."""
+    re_ = result_edges(b, r)
+    out = []
+    for bj, blk in enumerate(b.blocks):
+        if not b.live[bj] or blk['term']['k'] != 'switch':
+            continue
+        c = b.switch_cond(bj)
+        if c and c['kind'] == 'bool' and any(o[0] == 'place' and reads_ok_payload(re_, o[2]) for o in c['origin']):
+            ed = b.bool_edges(bj)
+            if ed:
+                out.append(ed)
+    return out
+
+
+def reads_ok_payload(res_edges, pl):
+    """place pl reads the success payload described by result_edges()"""
+    for (known, paths) in res_edges['payload']:
+        pp = place_path(known, pl)
+        if any(x in paths for x in pp):
+            return True
+    return False
 
 
 def place_path(known, pl):
